@@ -7,12 +7,9 @@ Tie G for internal/mapr/aggregateset.go: the translated `AggregateSet.Aggregate`
 import DtailModel.Generated.Code
 import DtailModel.Lemmas.GoRT
 import DtailModel.Model.Aggregate
+import DtailModel.Model.AggregateOps
 namespace Dtail.GenAgg
 open Dtail Dtail.Go Dtail.Gen.Mapr
-
-/-- the source's numbering of the aggregation operations -/
-def opCode : AggOp → Int
-  | .undef => 0 | .count => 1 | .sum => 2 | .min => 3 | .max => 4 | .last => 5 | .avg => 6 | .len => 7
 
 /-- … is the iota order of internal/mapr/selectcondition.go as translated on this run -/
 theorem opCode_is_source_iota :
@@ -208,8 +205,6 @@ def ColObs (op : AggOp) (a b : Col) : Prop :=
   match op with
   | .count | .sum | .avg => a.num.getD 0 = b.num.getD 0 ∧ a.str = b.str
   | _ => a = b
-
-def genSel (sc : SelCond) : selectCondition := ⟨sc.field, sc.storage, opCode sc.op⟩
 
 /-- the body of the translated `Merge` loop, as the translator emitted it -/
 def mergeBody (ext : Ext) (set' : AggregateSet) (s : AggregateSet) (sc : selectCondition) :
